@@ -127,6 +127,20 @@ KeyShortcut(i, v) ==
   /\ root' = "{\n  @t: " \o ScalarCat[v].text \o "\n}"
   /\ typ' = KeyStrings[i] /\ expect' = "accept"
 
+\* ---- size: n members that all refer to one user type (or carry one rule each), for the sizes at which an
+\* implementation may switch its bookkeeping or meet a limit.  The text is long and regular: the specification gives
+\* shape and size, `root` holds the member pattern with # for the member number, the harness repeats it n times.
+ScaledSizes == {15, 16, 17, 255, 256, 257, 1000, 1023, 1024, 1025, 1100, 4096}
+ScaledShapes == <<"object-of-refs", "array-of-refs", "object-of-ruled-scalars", "object-of-or-refs">>
+Scaled(n, sh) ==
+  /\ stage = "start" /\ fam' = "scaled:" \o ScaledShapes[sh] \o ":" \o ToString(n) /\ stage' = "done" /\ list' = <<>>
+  /\ root' = CASE sh = 1 -> "  \"k#\": @t"
+              [] sh = 2 -> "  @t"
+              [] sh = 3 -> "  \"k#\": # // {min: 0}"
+              [] OTHER  -> "  \"k#\": 1 // {or: [\"@t\", \"integer\"]}"
+  /\ typ' = IF sh = 3 THEN "" ELSE "{\n  \"v\": 1\n}"
+  /\ expect' = "accept"
+
 Skels == {"root", "prop", "item", "ref"}
 Next == \/ StartEnum
         \/ \E i \in 1..N : EnumAdd(i)
@@ -136,6 +150,7 @@ Next == \/ StartEnum
         \/ \E i \in 1..Len(FmtCat), s \in Skels \ {"ref"} : Format(i, s)
         \/ \E i \in 1..Len(NumCat), b \in 1..Len(NumCat), m \in 0..2 : Or2("num", i, b, m)
         \/ \E i \in 1..Len(StrCat), b \in 1..Len(NumCat), m \in 0..2 : Or2("str", i, b, m)
+        \/ \E n \in ScaledSizes, sh \in 1..Len(ScaledShapes) : Scaled(n, sh)
         \/ \E i \in 1..(Len(TypeVocab) + 1) : ApVocab(i)
         \/ \E i \in 1..Len(KeyStrings), v \in {1, 4, 8} : KeyShortcut(i, v)
         \/ \E v \in OrValues, i, j \in 1..Len(TypeVocab), fi, fj \in {"name", "set"}, s \in {"root", "prop"} : OrVocab(v, i, j, fi, fj, s)
